@@ -1,6 +1,6 @@
 (* C01 — wrapping preserves the text: lines are in-order slices of the input.
    Holds for every optimal-fit oracle that returns an ordered partition (OfitOK — proved
-   for the reference oracle, C06 for smawk's shape) and every custom splitter that
+   for the reference search and for the executable model of the smawk crate) and every custom splitter that
    returns strictly increasing proper character boundaries (SplitterOK — proved for the
    harness's custom splitter); both built-in splitters satisfy it by C12.
 
@@ -11,8 +11,8 @@
    ASCII separator no body ends in a space.  (For the Unicode separator a body can end in
    a space only through a force-broken or custom-split word containing one; that clause
    is checked on the implementation by L2, not proved.) *)
-From TW Require Import Wrap Custom.
-From TW Require Import Paragraphs Pipeline.
+From TW Require Import Wrap Custom WrapSmawk.
+From TW Require Import Paragraphs Pipeline SmawkShape.
 
 (* text level: the text is its paragraphs joined by the line ending; the lines are the
    paragraphs' lines in order; paragraph k sits at byte offset blen pre and its lines are
@@ -45,8 +45,8 @@ Theorem C01_line_of_segment : forall o first (l1 : list seg) s l2,
 Proof. exact seg_lines_line. Qed.
 
 (* the hypotheses are met by the reference oracle and the harness's custom splitter *)
-Theorem C01_hypotheses_met : OfitOK ofit_dp /\ SplitterOK custom3.
-Proof. split; [exact ofit_dp_ok|exact custom3_splitter_ok]. Qed.
+Theorem C01_hypotheses_met : OfitOK ofit_dp /\ OfitOK ofit_smawk /\ SplitterOK custom3.
+Proof. split; [exact ofit_dp_ok|split; [exact ofit_smawk_ok|exact custom3_splitter_ok]]. Qed.
 
 Print Assumptions C01_wrap.
 Print Assumptions C01_line_of_segment.
